@@ -47,7 +47,7 @@ func init() {
 		for i := 0; i < nr; i++ {
 			kk := k
 			kk.records = 1 + r.intn(40)
-			data := frame(randomStream(r, kk), defaultFrame())
+			data := frame(randomStream(r, kk), randFrame(r))
 			if r.chance(20) {
 				data = mutate(r, data)
 			}
